@@ -131,6 +131,21 @@ def annotations(tier):
              "genes": [{"id": "G1", "chr": "chr1", "strand": strand, "transcripts": [{"id": "T1", "exons": [list(e) for e in ex]}]}]}
         n += 1
         out.append(("a%d" % n, w, {"T1": ("chr1", strand, ex, "G1")}, {"spec": "short-penultimate-exon", "strand": strand, "second": None, "apa": True}))
+    # the single-isoform annotation whose 3' terminal exon is 60 bp long and ends in 45 A-rich genomic bases (AAAAG x 9; the mirror image
+    # on '-'): reads that follow it exactly
+    for strand in "+-":
+        ex = [list(e) for e in isoform_exons(1000, tuple(range(nslots)))]
+        if strand == "+":
+            ex[-1][1] = ex[-1][0] + 59
+            patch = ["chr1", ex[-1][1] - 44, "AAAAG" * 9]
+        else:
+            ex[0][0] = ex[0][1] - 59
+            patch = ["chr1", ex[0][0], "CTTTT" * 9]
+        ex = [tuple(e) for e in ex]
+        w = {"chroms": {"chr1": 12000, "chr2": 7000}, "sites": [], "reads": [], "patches": [patch],
+             "genes": [{"id": "G1", "chr": "chr1", "strand": strand, "transcripts": [{"id": "T1", "exons": [list(e) for e in ex]}]}]}
+        n += 1
+        out.append(("a%d" % n, w, {"T1": ("chr1", strand, ex, "G1")}, {"spec": "a-rich-short-terminal-exon", "strand": strand, "second": None, "arich": True}))
     # a gene nested in the last intron of another gene; reads exist for the host's SHORT isoform (first two exons) and for the nested gene
     # only, so they form two separate read clusters: the first overlaps the host gene alone, the second the host and the nested gene
     for strand in "+-":
@@ -396,9 +411,9 @@ def case(args):
                         rd["edits"] = [[e[0] + 1] + list(e[1:]) for e in rd["edits"]]
             reads.append(rd)
             info[nm] = r
-        # (the generic negative reads are not derived from the annotation with a 30-bp exon: skipping an exon that short is one of
+        # (the generic negative reads are not derived from the annotations with a 30-bp / 60-bp exon - the menu assumes exons of 200+ bases; skipping an exon that short is one of
         # IsoQuant's tolerated misalignments, not a structural change beyond the tolerances)
-        for r in (negative_reads(tid, chrom, strand, ex, delta) if not meta.get("apa") else []):
+        for r in (negative_reads(tid, chrom, strand, ex, delta) if not (meta.get("apa") or meta.get("arich")) else []):
             if not far_from_all(r["blocks"], iso, chrom, delta):
                 continue
             nm = "n%d" % k
@@ -455,7 +470,7 @@ def case(args):
             raise core.HarnessError("reference model says derived read %s %s is not compatible with its own isoform" % (nm, r))
         if atype not in CONSISTENT:
             at_run = meta.get("arun") is not None and meta["arun"] in (r["blocks"][-1][1], r["blocks"][0][0])
-            errs.append(("positive-inconsistent:" + kinds + (":ends-at-genomic-a-run" if at_run else ""), "read derived from %s by %s (blocks %s) is reported %s (%s)" %
+            errs.append(("positive-inconsistent:" + kinds + (":ends-at-genomic-a-run" if at_run else "") + (":a-rich-short-terminal-exon" if meta.get("arich") else ""), "read derived from %s by %s (blocks %s) is reported %s (%s)" %
                          (r["T"], list(r["devs"]), r["blocks"], atype, rr[0]["assignment_events"]), nm))
             continue
         if not reported <= comp:
